@@ -58,12 +58,31 @@ class C10(Prop):
             Z = 0 * A[i, j]
             e = ufl.conditional(ufl.lt(f[0], g[1]), Z, A[j, i])
             return ufl.as_tensor(e, (j, i))[rng.randrange(2), rng.randrange(2)] + ufl.as_tensor(e, (i, j))[0, 1]
+        if kind == "ct_twice":           # one component tensor read through several different index tuples
+            k, l = G.idxpool[1], G.idxpool[3]
+            T = ufl.as_tensor(A[i, j] * g[j] + f[i], (i,)) if rng.random() < 0.5 else ufl.as_tensor(2 * A[i, j] + A[j, i] * g[i], (i, j))
+            if len(T.ufl_shape) == 1:
+                return T[0] - 3 * T[1] + T[i] * f[i]
+            return T[0, 1] - 3 * T[1, 0] + T[i, j] * A[i, j] - 2 * T[j, i] * A[i, j]
+        if kind == "zero_fi2":           # a zero with two free indices of different extent, bound in both orders
+            M = rng.choice(C[(2, 3)])
+            a, b = G.idxpool[0], G.idxpool[1]          # extents 2 and 3
+            Z = 0 * M[a, b]
+            e = ufl.conditional(ufl.lt(f[0], g[1]), Z, 3 * M[a, b])
+            t1 = ufl.as_tensor(e, (b, a))
+            t2 = ufl.as_tensor(e, (a, b))
+            return t1[2, 1] + t2[1, 2] + ufl.as_tensor(ufl.conditional(ufl.gt(f[1], 0), M[a, b], Z), (b, a))[rng.randrange(3), rng.randrange(2)]
+        if kind == "zero_fi2_open":
+            M = rng.choice(C[(3, 2)])
+            a, b = G.idxpool[1], G.idxpool[0]          # extents 3 and 2; a is met first although its count is larger
+            Z = 0 * M[a, b]
+            return ufl.conditional(ufl.lt(f[0], g[1]), Z, 3 * M[a, b])
         if kind == "nested_ct":
             T = ufl.as_tensor(ufl.as_tensor(A[i, j] * 2, (j, i))[i, j] + A[i, j], (i, j))
             return T[j, i] * A[i, j]
         return G.expr((), (), 2)
 
-    KINDS = ["var_revisit", "var_revisit_idx", "capture", "capture_open", "shadow_fixed", "shadow_free", "zero_fi", "nested_ct"]
+    KINDS = ["var_revisit", "var_revisit_idx", "capture", "capture_open", "shadow_fixed", "shadow_free", "zero_fi", "nested_ct", "ct_twice", "zero_fi2", "zero_fi2_open"]
 
     def gen_case(self, rng, k):
         G = gen.Gen(rng, gdim=2, math=(k % 3 == 0), compound=False, derivs=False, reuse=0.9, tensor_cond=(k % 5 == 0))
@@ -72,7 +91,7 @@ class C10(Prop):
             try:
                 return G, self.directed(rng, G, kind), kind
             except Exception:
-                pass
+                self.directed_failed = getattr(self, "directed_failed", 0) + 1
         fi = () if k % 3 else (G.index(),)
         sh = rng.choice([(), (), (2,), (2, 2)])
         return G, G.expr(sh, fi, rng.randint(1, 4)), "random"
@@ -89,7 +108,7 @@ class C10(Prop):
         if not e.ufl_free_indices:
             return e
         idx = [i for i in G.idxdim if i.count() in e.ufl_free_indices]
-        idx.sort(key=lambda i: i.count())
+        idx.sort(key=lambda i: i.count(), reverse=(len(str(e)) % 2 == 0))      # either binder order
         if e.ufl_shape:
             extra = tuple(ufl.Index() for _ in e.ufl_shape)
             return ufl.as_tensor(e[extra], tuple(idx) + extra)
@@ -184,7 +203,8 @@ class C10(Prop):
         ev.cov["unsupported_skipped"] = unsupported
         ev.cov["traces_validated_against_impl"] = len(reqs) - unsupported
         ev.cov["case_kinds"] = hist
-        ev.cov["rule"] = ("generated index-notation expressions (index re-use rate 0.9 from a pool of 4 Index objects, variables, conditionals with zero branches, nested component tensors) and 8 directed "
+        ev.cov["directed_constructions_failed"] = getattr(self, "directed_failed", 0)
+        ev.cov["rule"] = ("generated index-notation expressions (index re-use rate 0.9 from a pool of 4 Index objects, variables, conditionals with zero branches, nested component tensors) and 11 directed "
                           "kinds (variable read at several components, capture, shadowing, zeros with free indices); each through renumber_indices, remove_component_tensors and (closed scalars) expand_indices; "
                           "non-trivial = distinct request with >= 3 operator nodes whose output differs from its input")
         ev.cov["samples"] = [dict(pass_=m[1], kind=m[2], expr=str(m[3])[:120], result=str(m[4])[:120]) for m in meta[:4]]
